@@ -90,7 +90,8 @@ func main() {
 						if pn, ok := pkg.TypesInfo.Uses[id].(*types.PkgName); ok {
 							ip, name := pn.Imported().Path(), x.Sel.Name
 							if (ip == "sync" && (name == "Cond" || name == "NewCond" || name == "Pool")) ||
-								(ip == "time" && (name == "Sleep" || name == "After" || name == "Tick" || name == "NewTimer" || name == "NewTicker" || name == "AfterFunc")) {
+								(ip == "time" && (name == "Tick" || name == "NewTimer" || name == "NewTicker" || name == "AfterFunc")) ||
+								(ip == "context" && (name == "WithTimeout" || name == "WithDeadline" || name == "WithTimeoutCause" || name == "WithDeadlineCause")) {
 								fatal("%s: %s.%s at %s is not supported by the scheduler", p, ip, name, pkg.Fset.Position(nd.Pos()))
 							}
 						}
@@ -225,6 +226,14 @@ func main() {
 						&ast.ExprStmt{X: shimCall("ChanSendFn", cid, op)},
 					}})
 					changed, needShim = true, true
+				case *ast.SelectorExpr:
+					if id, ok := x.X.(*ast.Ident); ok && (x.Sel.Name == "After" || x.Sel.Name == "Sleep") {
+						if pn, ok := pkg.TypesInfo.Uses[id].(*types.PkgName); ok && pn.Imported().Path() == "time" {
+							n++
+							cur.Replace(&ast.SelectorExpr{X: ast.NewIdent("sync"), Sel: ast.NewIdent(x.Sel.Name)})
+							changed, needShim = true, true
+						}
+					}
 				case *ast.CallExpr:
 					if id, ok := x.Fun.(*ast.Ident); ok && id.Name == "close" && len(x.Args) == 1 {
 						if _, isBuiltin := pkg.TypesInfo.Uses[id].(*types.Builtin); isBuiltin {
